@@ -297,11 +297,16 @@ func c05R4(c *Ctx, rule string) {
 		if !isApp {
 			return
 		}
-		_, bytes, okA := absAppend(call)
+		base, bytes, okA := absAppend(call)
 		if !okA {
 			return
 		}
 		appendStores = append(appendStores, st)
+		// only what is appended onto the pooled buffer itself is part of the record; a regrow that copies the pooled
+		// prefix into a fresh array (append(make(…), (*writeBuf)[:3]...)) contributes no new bytes
+		if ld, isLd := base.(*ssa.UnOp); !isLd || ld.Op != token.MUL || ld.X != bufPtr {
+			return
+		}
 		seq = append(seq, bytes...)
 	})
 	{
